@@ -207,6 +207,8 @@ pub struct AcctWorld {
     pub avoid: BTreeSet<String>,
     /// history of per-folder keys (every key a folder ever had), for nonce scans
     pub old_keys: Vec<(VaultId, AccessKey)>,
+    /// keep the search index initialised across sign-ins (as an application does)
+    pub search: bool,
 }
 
 pub fn hf<E: std::fmt::Display>(sig: &str, what: &str) -> impl FnOnce(E) -> Failure + 'static {
@@ -267,6 +269,7 @@ impl AcctWorld {
             stats: HistStats::default(),
             avoid: BTreeSet::new(),
             old_keys: vec![],
+            search: false,
         };
         let key: AccessKey = w.password.clone().into();
         let folders = w
@@ -317,6 +320,12 @@ impl AcctWorld {
             .await
             .map_err(hf("c01/sign-in-failed", "sign_in on a fresh instance"))?;
         self.account = fresh;
+        if self.search {
+            self.account
+                .initialize_search_index()
+                .await
+                .map_err(hf("c20/initialize-search-index-error", "initialize_search_index on a fresh instance"))?;
+        }
         self.stats.reopens += 1;
         if self.stats.delete_or_move {
             self.stats.reopen_after_delete = true;
@@ -679,6 +688,12 @@ impl AcctWorld {
                     .sign_in(&key)
                     .await
                     .map_err(hf("c01/sign-in-failed", "sign_in after sign_out"))?;
+                if self.search {
+                    self.account
+                        .initialize_search_index()
+                        .await
+                        .map_err(hf("c20/initialize-search-index-error", "initialize_search_index after sign_in"))?;
+                }
                 self.stats.reopens += 1;
                 if self.stats.delete_or_move {
                     self.stats.reopen_after_delete = true;
